@@ -230,6 +230,10 @@ class Gen:
                     # dig.In embedded indirectly, through an embedded struct that embeds it
                     (t, nm) = self.gen_single_param(level, scope)
                     base = self.st([self.in_field(), self.field("B1", u(t), {"name": nm} if nm else {})])
+                    # ... through one or two further embedded structs, a third of the time each (decided by what has
+                    # been drawn already: no extra draw, the random stream of every program stays what it was)
+                    for _ in range((t + len(fs)) % 3):
+                        base = self.st([self.field("Base", base, anon=True)])
                     i = [j for j, f in enumerate(fs) if f["anon"] and f["t"].get("u") == 1][0]
                     fs[i] = self.field("Base", base, anon=True)
                     if r.random() < 0.3:
